@@ -410,9 +410,29 @@ class C15(Check):
         return '%s: spec expects `%s`, implementation gives `%s`' % (kind, exp[:200], got[:200])
 
     @staticmethod
+    def position_in_message(msg):
+        """(line, column) as decimal strings read out of the text a static wrapper leaves in Error::getErrorString(), or None.
+        The property constrains the two numbers, not the wording: the number behind the word `line` and the number behind the
+        word `column` / `col` when both words occur, else the first two free-standing integers of the text (not glued to a
+        letter, digit, '-' or '.': `UTF-16`, `e1`, `1.0` are no positions).  None = no position can be read from this text:
+        then the oracle makes no claim about it (the text is still compared with the model's text: correspondence only)."""
+        import re
+        msg = msg.replace('_', ' ')
+        num = r'(?<![\w.\-])(-?\d+)(?![\w.])'
+        ml = re.search(r'(?i)\bline\b[^\w\-]{0,3}' + num, msg)
+        mc = re.search(r'(?i)\bcol(?:umn)?\b[^\w\-]{0,3}' + num, msg)
+        if ml and mc:
+            return ml.group(1), mc.group(1)
+        if ml or mc:
+            return None
+        ints = re.findall(num, msg)
+        if len(ints) >= 2:
+            return ints[0], ints[1]
+        return None
+
+    @staticmethod
     def _error_positions(opl, ol):
         """(text, line, column) for every reported failure in the observation line of an op"""
-        import re
         t = opl.split(' ')
         out = []
         def one(text, ans):
@@ -420,8 +440,13 @@ class C15(Check):
             if a and a[0] == 'err' and len(a) >= 3:
                 out.append((text, a[1], a[2]))
             elif a and a[0] == 'serr' and len(a) >= 2:
-                m = re.match(r'Syntax_error_at_line_(-?\d+),_column_(-?\d+):', a[1])
-                out.append((text, m.group(1), m.group(2)) if m else (text, '0', '0'))
+                # the static wrappers report through a text only: the position is read out of it whatever its wording;
+                # a text without a readable position is not judged (model = implementation is still compared)
+                p = C15.position_in_message(' '.join(a[1:]))
+                if p:
+                    out.append((text, p[0], p[1]))
+                elif a[1:] == ['stale']:
+                    out.append((text, None, None))      # the harness's sentinel is still there: nothing was reported at all
         if t[0] == 'parse' and len(t) >= 2:
             one(t[1], ol)
         elif t[0] == 'parse2' and len(t) >= 4:
@@ -461,6 +486,12 @@ class C15(Check):
         for i, (c, o) in enumerate(zip(cases, impl_obs)):
             for k, (opl, ol) in enumerate(zip(c, o)):
                 for text, l, col in self._error_positions(opl, ol):
+                    if l is None:
+                        if i not in failed:
+                            failed.add(i)
+                            fails.append((i, k, '%s: the static wrapper returned false and left Error::getErrorString() as it was before the call: '
+                                                'no line and column reported' % opl.split(' ')[0]))
+                        continue
                     chk.append(['chkpos %s %s %s' % (text, l, col)])
                     idx.append((i, k, l, col))
         if chk:
